@@ -90,6 +90,11 @@ func RunJobs(p *Program, jobs []*Job, n int, backend string, wantFixtures bool, 
 					break
 				}
 				results[i] = w.Explore(jobs[i], wantFixtures)
+				if os.Getenv("VERIF_PROGRESS") != "" {
+					r := results[i]
+					fmt.Fprintf(os.Stderr, "job %s %q: paths=%d done=%d skipped=%d aborted=%d viol=%d forks=%d queries=%d %.1fs trunc=%v bound=%d\n", jobs[i].ID, jobs[i].Params["path"],
+						len(r.Paths), r.NDone, r.NSkipped, r.NAborted, r.NViol, r.Forks, r.Queries, r.Elapsed.Seconds(), r.Truncated, r.BoundUsed)
+				}
 			}
 			mu.Lock()
 			stats.Paths += w.Paths
